@@ -150,6 +150,22 @@ func vnRun(t *testing.T, tr *vkTrace, bh vnBehaviour) { //nolint:cyclop
 			case <-time.After(5 * time.Second):
 			}
 			_ = q.SetRemoteDescription(*pc.LocalDescription())
+		case "pranswer": // the peer answers provisionally: have-local-pranswer there, have-remote-pranswer here
+			q := pcs[other[st.Who]]
+			pr, err := q.CreateAnswer(nil)
+			if err != nil {
+				break
+			}
+			pr.Type = SDPTypePranswer
+			done := GatheringCompletePromise(q)
+			if err = q.SetLocalDescription(pr); err != nil {
+				break
+			}
+			select {
+			case <-done:
+			case <-time.After(5 * time.Second):
+			}
+			_ = pc.SetRemoteDescription(*q.LocalDescription())
 		case "answer":
 			q := pcs[other[st.Who]]
 			answer, err := q.CreateAnswer(nil)
@@ -173,6 +189,8 @@ func vnRun(t *testing.T, tr *vkTrace, bh vnBehaviour) { //nolint:cyclop
 			_ = pc.Close()
 			tr.Emit(vkM{"ev": "closed", "t": bh.ID, "who": st.Who, "st": pc.SignalingState().String(), "closed": true,
 				"needs": false, "drained": true, "sig": "close"})
+		default:
+			t.Fatalf("unknown op %q", st.Op)
 		}
 		emitState(step, drain())
 	}
